@@ -11,7 +11,7 @@ export CARGO_NET_OFFLINE=true
 cp deliver/patch.diff $OUT/patch.diff
 [ -f deliver/notes.md ] && cp deliver/notes.md $OUT/notes.md
 rm -rf $OUT/demo; [ -d deliver/demo ] && rsync -a --exclude target deliver/demo/ $OUT/demo/
-git checkout -q -- src 2>/dev/null; git stash -q 2>/dev/null
+git checkout -q -- src 2>/dev/null
 git apply --check $OUT/patch.diff || { echo "patch does not apply"; exit 3; }
 DEMO_CMD="cd $WT/deliver/demo && cargo run --offline -q"
 [ -f deliver/demo_cmd.txt ] && DEMO_CMD=$(cat deliver/demo_cmd.txt)
